@@ -227,6 +227,36 @@ Proof.
   replace (cap * 2 <? W) with true by (symmetry; apply N.ltb_lt; exact H). rsimpl. reflexivity.
 Qed.
 
+(* RawVec::cap(): usize::MAX for zero-sized elements, the field otherwise *)
+Lemma src_cap_ok es cap :
+  call_fn src_fns [("self", VRec [("cap", VN cap)]); ("size_of_T", VN es)] "cap" []
+  = Ret (VN (if es =? 0 then USIZE_MAX else cap)).
+Proof. unfold call_fn. rsimpl. destruct (es =? 0); rsimpl; reflexivity. Qed.
+
+(* the inlined shortcut of {fallible,infallible}_reserve_internal: "there is room already" is
+   `cap().wrapping_sub(used) >= extra` — the test of VecModel.try_reserve (capv is what cap() returns) *)
+Lemma src_reserve_has_room_ok capv used extra strat :
+  call_fn src_fns [("self", VRec [("cap", VN capv)])] "fallible_reserve_has_room" [VN used; VN extra; strat]
+  = Ret (VB (extra <=? wsub capv used)) /\
+  call_fn src_fns [("self", VRec [("cap", VN capv)])] "infallible_reserve_has_room" [VN used; VN extra; strat]
+  = Ret (VB (extra <=? wsub capv used)).
+Proof. unfold call_fn. split; rsimpl; reflexivity. Qed.
+
+(* the new capacity reserve_internal asks for: exact = used + extra, amortized = max(2 cap, used + extra);
+   an overflowing sum leaves the function with the error (`?`): vtry None *)
+Definition vtry (o : option N) : val := match o with Some r => VN r | None => VNone end.
+Lemma src_reserve_new_cap_ok cap used extra f strat : cap * 2 < W ->
+  call_fn src_fns [("self", VRec [("cap", VN cap)])] "reserve_new_cap_exact" [VN used; VN extra; f; strat]
+  = Ret (vtry (checked_add used extra)) /\
+  call_fn src_fns [("self", VRec [("cap", VN cap)])] "reserve_new_cap_amortized" [VN used; VN extra; f; strat]
+  = Ret (vtry (match checked_add used extra with Some r => Some (N.max (cap * 2) r) | None => None end)).
+Proof.
+  intros H. unfold call_fn, checked_add. split; rsimpl.
+  - destruct (used + extra <? W); rsimpl; reflexivity.
+  - destruct (used + extra <? W); rsimpl; [|reflexivity].
+    replace (cap * 2 <? W) with true by (symmetry; apply N.ltb_lt; exact H). rsimpl. reflexivity.
+Qed.
+
 (* ---------- the fast path ---------- *)
 
 Lemma wsub_small a b : b <= a -> a < W -> wsub a b = a - b.
